@@ -1,0 +1,101 @@
+//go:build verif
+
+package dhcpv6
+
+// Add-only verification hooks for property C02 (DHCP servers never bind one
+// address or prefix to two clients).  Compiled only with `-tags verif`;
+// nothing here changes behaviour: the wrappers do what receiveLoop / Start do,
+// the accessors return copies.
+
+import (
+	"net"
+	"sort"
+)
+
+// VerifLease is one entry of the lease table: the map key (raw client DUID
+// bytes as a string) and a copy of the lease.
+type VerifLease struct {
+	Key   string
+	Lease Lease
+}
+
+// VerifPoolState is a copy of the legacy address / prefix pools' allocation
+// state (maps are keyed by the raw client DUID string; empty when the server
+// has no such pool).
+type VerifPoolState struct {
+	AddrAllocated   map[string]string // DUID -> address
+	AddrAvailable   []string          // in allocation order
+	PrefixAllocated map[string]string // DUID -> prefix (CIDR)
+	PrefixAvailable []string          // in allocation order
+}
+
+// VerifSetConn installs the socket replies are written to (what Start does
+// after ListenUDP).
+func (s *Server) VerifSetConn(c *net.UDPConn) { s.conn = c }
+
+// VerifServerDUID returns the serialised server DUID (the contents of the
+// Server Identifier option the server sends and expects).
+func (s *Server) VerifServerDUID() []byte {
+	return append([]byte(nil), s.serverDUID.Serialize()...)
+}
+
+// VerifHandleBytes does what receiveLoop does with one datagram: parse the
+// wire form and, if it parses, call the message handler synchronously.  The
+// parse error (for which receiveLoop drops the datagram) is returned.
+func (s *Server) VerifHandleBytes(data []byte, addr *net.UDPAddr) error {
+	msg, err := ParseMessage(data)
+	if err != nil {
+		return err
+	}
+	s.handleMessage(msg, addr)
+	return nil
+}
+
+// VerifLeases returns a snapshot of the lease table (client DUID -> lease),
+// sorted by key.
+func (s *Server) VerifLeases() []VerifLease {
+	s.leasesMu.RLock()
+	defer s.leasesMu.RUnlock()
+	out := make([]VerifLease, 0, len(s.leases))
+	for k, l := range s.leases {
+		if l == nil {
+			continue
+		}
+		c := *l
+		c.ClientDUID = append([]byte(nil), l.ClientDUID...)
+		c.Address = append(net.IP(nil), l.Address...)
+		c.ClientLinkAddr = append(net.IP(nil), l.ClientLinkAddr...)
+		if l.Prefix != nil {
+			c.Prefix = &net.IPNet{IP: append(net.IP(nil), l.Prefix.IP...), Mask: append(net.IPMask(nil), l.Prefix.Mask...)}
+		}
+		out = append(out, VerifLease{Key: k, Lease: c})
+	}
+	sort.Slice(out, func(i, j int) bool { return out[i].Key < out[j].Key })
+	return out
+}
+
+// VerifPools returns a copy of the legacy pools' allocated / available sets.
+func (s *Server) VerifPools() VerifPoolState {
+	st := VerifPoolState{AddrAllocated: map[string]string{}, PrefixAllocated: map[string]string{}}
+	if p := s.addressPool; p != nil {
+		p.mu.Lock()
+		for d, ip := range p.allocated {
+			st.AddrAllocated[d] = ip.String()
+		}
+		for _, ip := range p.available {
+			st.AddrAvailable = append(st.AddrAvailable, ip.String())
+		}
+		p.mu.Unlock()
+	}
+	if p := s.prefixPool; p != nil {
+		p.mu.Lock()
+		for d, n := range p.allocated {
+			st.PrefixAllocated[d] = n.String()
+		}
+		for _, n := range p.available {
+			st.PrefixAvailable = append(st.PrefixAvailable, n.String())
+		}
+		p.mu.Unlock()
+	}
+	return st
+}
